@@ -100,6 +100,8 @@ func (s *Subscription) delete(ctx context.Context) error {
 	switch {
 	case err != nil:
 		return err
+	case len(res.Results) != 1:
+		return ua.StatusBadUnknownResponse
 	case res.Results[0] == ua.StatusOK:
 		s.itemsMu.Lock()
 		s.items = make(map[uint32]*monitoredItem)
@@ -162,6 +164,9 @@ func (s *Subscription) Monitor(ctx context.Context, ts ua.TimestampsToReturn, it
 
 	if err != nil {
 		return nil, err
+	}
+	if len(res.Results) != len(items) {
+		return nil, ua.StatusBadUnknownResponse
 	}
 
 	// store monitored items
@@ -238,6 +243,9 @@ func (s *Subscription) ModifyMonitoredItems(ctx context.Context, ts ua.Timestamp
 	})
 	if err != nil {
 		return nil, err
+	}
+	if len(res.Results) != len(items) {
+		return nil, ua.StatusBadUnknownResponse
 	}
 
 	// update monitored items
@@ -481,6 +489,9 @@ func (s *Subscription) recreate_monitoredItems(ctx context.Context) error {
 			return err
 		}
 
+		if len(res.Results) != len(items) {
+			return ua.StatusBadUnknownResponse
+		}
 		for _, result := range res.Results {
 			if status := result.StatusCode; status != ua.StatusOK {
 				return status
